@@ -187,6 +187,9 @@ func (g *Gen) RandomCase(res *vh.Result, c10 bool) *Case {
 	var live, expired []Ident
 	if c.HasCands {
 		nc := r.Intn(5)
+		if c10 {
+			nc = r.Intn(9) // several joins in one block: the joined nodes reach the merger in completion order
+		}
 		for i := 0; i < nc; i++ {
 			id := g.newIdent()
 			x := Cand{Addr: id.Addr, Pub: id.Pub()}
@@ -237,6 +240,9 @@ func (g *Gen) RandomCase(res *vh.Result, c10 bool) *Case {
 	nops := r.Range(1, 9)
 	if r.Chance(1, 10) {
 		nops = r.Range(10, 16)
+	}
+	if c10 && r.Chance(1, 3) {
+		nops = r.Range(10, 40)
 	}
 	polCount := 0
 	for len(c.Ops) < nops {
